@@ -58,6 +58,22 @@ func c01(cx *Ctx, r *ev.Report) {
 		}
 	}
 	stepGlue(cx, r, "C01")
+	// an instruction supplied by a mode-0 request instead of by memory has the
+	// same effect (its pushes, which expose finding F3, are compared under C07)
+	if sa := cx.stepAnalysis(); sa.err == nil {
+		ruleI := "STEP-EQ(IM0 instr): an RST p / CALL nn supplied by a mode-0 request is executed as that instruction (target, registers, flip-flops, frame) wherever PC is; the pushed resume address is compared under C07 (known finding F3)"
+		for _, ic := range sa.im0 {
+			key := "C01/im0/instr=" + ic.name
+			if ic.und != nil {
+				r.Undecide(key, ruleI, cx.P.Pos(cx.E.Step.Pos()), ic.und.Error())
+				continue
+			}
+			ds := diffStrings(ic.diffs, func(d engine.Diff) bool {
+				return !(d.Cat == "event" && d.What == isa.KindMemSet) && !(d.Cat == "state" && d.What == isa.LocSP)
+			})
+			r.Check(len(ds) == 0, key, ruleI, cx.P.Pos(cx.E.Step.Pos()), "summary-equality", ds...)
+		}
+	}
 	r.Hold("C01/catalogue/decoder-shape", "CATALOGUE: the decoder is a constant decode over opcode fetches resolved by constant propagation", cx.P.Pos(cx.E.Exec.Pos()), "shape")
 	summaryReport(cx, r, nil)
 	r.Explanation = "All 1786 opcode-byte prefixes (main, CB, ED, DD, FD, DDCB, FDCB) are specialised; each implemented arm's closed-form summary is compared with the reference model's for every CPU field (A,F,BC,DE,HL, alternates, IX,IY,SP,PC,I,R,IFF1,IFF2,IM,HALT and the non-architectural fields, which must stay unchanged) and for the multiset of memory/port writes. Address arithmetic is compared modulo 2^16 as bit-vector functions, so wrap-around needs no separate case. Unimplemented undocumented encodings must equal 'bytes consumed, warning logged'."
